@@ -21,9 +21,19 @@ func genValidStream(r *Rng, tier string) (stream, out []byte, how string) {
 			pick = 4 + r.Intn(3)
 		}
 		switch pick {
-		case 0, 1, 2, 3:
+		case 0:
+			if r.Intn(2) == 0 {
+				s, o2, d := SynthBoundary(r)
+				chk, err := stdDecodeRaw(s, nil)
+				if err != io.EOF || !bytes.Equal(chk, o2) {
+					continue
+				}
+				return s, o2, "synth:" + d
+			}
+			fallthrough
+		case 1, 2, 3:
 			o := SynthOpts{MaxBlocks: r.Pick([]int{1, 2, 5, 12}), MaxTokens: r.Pick([]int{5, 60, 600, 6000}), StdCompat: true,
-				BigStored: r.Intn(4) == 0, ManyTiny: r.Intn(25) == 0, FarDist: r.Intn(3) == 0, LongCodes: r.Intn(3) == 0}
+				BigStored: r.Intn(4) == 0, ManyTiny: r.Intn(25) == 0, FarDist: r.Intn(3) == 0, LongCodes: r.Intn(3) == 0, ManyDist: r.Intn(4) == 0, Tight: r.Intn(4) == 0}
 			s, o2, d := Synthesize(r, o)
 			chk, err := stdDecodeRaw(s, nil)
 			if err != io.EOF || !bytes.Equal(chk, o2) {
@@ -126,7 +136,7 @@ func init() {
 				f := faultNames[i%len(faultNames)]
 				o := SynthOpts{MaxBlocks: r.Pick([]int{1, 2, 4}), MaxTokens: r.Pick([]int{5, 60, 600, 5000}), Fault: f, FarDist: r.Intn(4) == 0, LongCodes: r.Intn(3) == 0}
 				s, _, d := Synthesize(r, o)
-				cs = append(cs, Case{Prop: "C03", Kind: "fault", Stream: s, Note: f + ":" + d, Ctor: r.Pick2("new", "reset", "reset2"), Reads: readPattern(r), Chunks: chunkPattern(r), Src: r.Pick2("bytes.Reader", "plain", "bufio:4096")})
+				cs = append(cs, Case{Prop: "C03", Kind: "fault", Stream: s, Note: f + ":" + d, Ctor: r.Pick2("new", "reset", "reset2", "reset3"), Reads: readPattern(r), Chunks: chunkPattern(r), Src: r.Pick2("bytes.Reader", "plain", "bufio:4096")})
 			}
 			for i := 0; i < tierN(tier, 20, 200); i++ {
 				s, _, how := genValidStream(r, "quick")
@@ -156,7 +166,7 @@ func init() {
 					}
 					m[p] ^= 1 << uint(r.Intn(8))
 				}
-				cs = append(cs, Case{Prop: "C03", Kind: "bitflip", Stream: m, Note: how, Ctor: r.Pick2("new", "reset"), Reads: readPattern(r), Src: "bytes.Reader"})
+				cs = append(cs, Case{Prop: "C03", Kind: "bitflip", Stream: m, Note: how, Ctor: r.Pick2("new", "reset", "reset3"), Reads: readPattern(r), Src: r.Pick2("bytes.Reader", "plain"), Chunks: chunkPattern(r)})
 			}
 			for i := 0; i < tierN(tier, 300, 5000); i++ {
 				m := r.Bytes(1 + r.Intn(300))
@@ -227,6 +237,9 @@ func reusedReader(ctor string, src io.Reader) io.Reader {
 	case "reset2": // abandon the first stream in the middle, with undelivered output pending
 		buf := make([]byte, 100)
 		rd.Read(buf)
+	case "reset3": // earlier stream cut inside its (dynamic) block header: staged header bytes pending
+		rd, _ = newFastReader("flate", "new", bytes.NewReader(warmupFlate[:3+len(warmupFlate)%17]), nil)
+		io.ReadAll(rd)
 	}
 	rd.(resetter).Reset(src, nil)
 	return rd
